@@ -1249,3 +1249,7 @@ impl<T: Config> P2PSession<T> {
         }
     }
 }
+
+#[cfg(ggrs_verif)]
+#[path = "../verif/p2p.rs"]
+mod verif_p2p;
